@@ -131,7 +131,7 @@ fn concurrent_crash(tape: &mut Tape, ctx: &RunCtx) -> RunOut {
         clock_small: true,
         sampled_faults: false,
         debris: true,
-        focus: true,
+        focus: 4,
     };
     let mut run = run_conc(tape, &cfg, ctx.detail);
     let mut out = RunOut::default();
@@ -147,10 +147,21 @@ fn concurrent_crash(tape: &mut Tape, ctx: &RunCtx) -> RunOut {
         out.count("aborted_runs", 1);
         return out;
     }
+    // every operation the surviving participants started after the crash
+    // must succeed (no faults are injected in this mode)
+    if let Some(crash_step) = run.results.iter().filter(|r| r.crashed).map(|r| r.ret).min() {
+        for r in run.results.iter().filter(|r| !r.crashed && r.inv >= crash_step && Some(r.proc) != run.crashed_proc) {
+            if (r.panic.is_some() || r.out.is_err()) && v.is_none() {
+                v = Some(Violation::new("followup-failed", format!("an operation started after a peer was killed failed: {}", r.short())));
+            }
+        }
+    }
     let dirs = run.w.dirs.clone();
     let fs = run.w.fs_clone();
     if let Some((c, m)) = validate_tree(&fs, &dirs).into_iter().next() {
-        v = Some(Violation::new(c, format!("after a participant was killed mid-run: {}", m)));
+        if v.is_none() {
+            v = Some(Violation::new(c, format!("after a participant was killed mid-run: {}", m)));
+        }
     }
     if v.is_none() {
         for (p, st, _) in fs.tree("/") {
